@@ -320,7 +320,7 @@ theorem refl_node : ∀ n : Node, GPair R (renderNode c n) (renderNode c n)
       (gpair_blockBody hR c (refl_list els))
   | .loop l t v e m body (_ :: _ :: _) =>
     gpair_node_loop2 hR (fun _ _ => trivial) c l t v e m _ _ _ _ _ _ (gpair_blockBody hR c (refl_list body))
-  | .cycle l g v0 r => gpair_node_cycle hR c l g v0 r (fun _ _ => trivial)
+  | .cycle l g v0 r => gpair_node_cycle hR c l g v0 r trivial (fun _ _ => trivial)
   | .brk l => gpair_node_brk hR c l
   | .cont l => gpair_node_cont hR c l
   | .incl l a => gpair_node_incl hR c hc (ctxChunks_true c) l a
@@ -385,7 +385,7 @@ theorem face_node : ∀ n : Node, (∀ u ∈ litNode n, TrimComm u) → GPair Fa
     rw [faceLNode, faceLClauses, faceLClauses]
     exact gpair_node_loop2 faceRel_ok (fun _ _ => trivial) c l t v e m _ _ _ _ _ _
       (gpair_blockBody faceRel_ok c (face_list body (fun u hu => hl u (by simp [litNode, hu]))).1)
-  | .cycle l g v0 r, _ => by rw [faceLNode]; exact gpair_node_cycle faceRel_ok c l g v0 r (fun _ _ => trivial)
+  | .cycle l g v0 r, _ => by rw [faceLNode]; exact gpair_node_cycle faceRel_ok c l g v0 r trivial (fun _ _ => trivial)
   | .brk l, _ => by rw [faceLNode]; exact gpair_node_brk faceRel_ok c l
   | .cont l, _ => by rw [faceLNode]; exact gpair_node_cont faceRel_ok c l
   | .incl l a, _ => by rw [faceLNode]; exact gpair_node_incl faceRel_ok c hc (ctxChunks_true c) l a
